@@ -2187,6 +2187,14 @@ def regenerate():
         text = "-- translation failed: " + str(e).replace("\n", " ") + "\n"
     ha = hdr.replace("import Cachelito.RustLite\n", "import Cachelito.RustLite\nimport Cachelito.Generated.PureAsync\n")
     write_if_changed(os.path.join(GEN_DIR, "PureWrapAsync.lean"), ha + "namespace WrapAsync\nvariable {K V F E T : Type} [DecidableEq K]\n\n" + text + "\nend WrapAsync\nend Cachelito.Generated\n")
+    try:
+        text, kinfo = translate_key_exprs()
+        info["key_exprs"] = kinfo
+    except Exception as e:
+        problems.append("cachelito-macro-utils/src/lib.rs: " + (str(e) if isinstance(e, Untranslatable) else f"translator error {e!r}"))
+        text = "-- translation failed: " + str(e).replace("\n", " ") + "\n"
+    hk = hdr.replace("import Cachelito.RustLite\n", "import Cachelito.RustLite\nimport Cachelito.Keys\n")
+    write_if_changed(os.path.join(GEN_DIR, "PureKeys.lean"), hk + "namespace KeyExpr\n\n" + text + "\nend KeyExpr\nend Cachelito.Generated\n")
     info["problems"] = problems
     return info
 
@@ -2894,6 +2902,11 @@ class GenInterp:
             if isinstance(v, list):
                 return ("strlit", " ".join(t[1] for t in v))
             raise Untranslatable(f"{self.fname}: `to_string` of a non-token value in a generator function")
+        if k == "mcall" and e[2] == "is_empty" and not e[4]:
+            v = self.ev(e[1], env)
+            if isinstance(v, tuple) and v and v[0] == "patlist":
+                return len(v[1]) == 0
+            raise Untranslatable(f"{self.fname}: `is_empty` of a non-list value in a generator function")
         if k == "mcall" and e[2] == "contains" and len(e[4]) == 1:
             v, a = self.ev(e[1], env), self.ev(e[4][0], env)
             if isinstance(v, tuple) and v[0] == "strlit" and isinstance(a, tuple) and a[0] == "strlit":
@@ -2931,6 +2944,37 @@ class GenInterp:
         i = 0
         while i < len(toks):
             t = toks[i]
+            if t[0] == "p" and t[1] == "#" and i + 1 < len(toks) and toks[i + 1][1] == "(":
+                # repetition `#( … #list … )*` / `#( … ),*`: once per element of the (single) list interpolated inside
+                depth, j = 0, i + 1
+                while True:
+                    if toks[j][1] == "(":
+                        depth += 1
+                    if toks[j][1] == ")":
+                        depth -= 1
+                        if depth == 0:
+                            break
+                    j += 1
+                inner = toks[i + 2:j]
+                k2 = j + 1
+                sep = []
+                if k2 < len(toks) and toks[k2][1] != "*":
+                    sep = [toks[k2]]; k2 += 1
+                if k2 >= len(toks) or toks[k2][1] != "*":
+                    raise Untranslatable(f"{self.fname}: repetition without `*` in a quote template")
+                lists = [inner[m + 1][1] for m in range(len(inner) - 1) if inner[m][1] == "#" and inner[m + 1][0] == "id"
+                         and isinstance(env.get(inner[m + 1][1]), tuple) and env[inner[m + 1][1]][0] == "patlist"]
+                if len(set(lists)) != 1:
+                    raise Untranslatable(f"{self.fname}: repetition over {sorted(set(lists))} in a quote template")
+                name = lists[0]
+                elems = env[name][1]
+                for n_, el in enumerate(elems):
+                    env2 = dict(env); env2[name] = el
+                    if n_ > 0:
+                        out += sep
+                    out += self.quote(inner, env2)
+                i = k2 + 1
+                continue
             if t[0] == "p" and t[1] == "#" and i + 1 < len(toks) and toks[i + 1][0] == "id":
                 name = toks[i + 1][1]
                 if name not in env:
@@ -3199,6 +3243,105 @@ def translate_async_wrapper():
                    f"def {name} (A : RustLite.F64 F) (clock : RustLite.Clock) (size : {vt} → Nat) (fuel : Nat) (rs : List Nat)\n"
                    f"    (invalidate_on__ cache_if__ : K → {vt} → Bool) (__cache : RustLite.AsyncCache K {vt} F) (key__ : K) (body__ : {vt}) :=\n  {text}\n")
         info["configs"].append(name)
+    return "\n".join(out), info
+
+
+# ------------------------------------------------------------------------------------------------ the key expression
+# `cachelito-macro-utils/src/lib.rs`: `generate_key_expr` (`#[cache_async]`) and `generate_key_expr_with_cacheable_key`
+# (`#[cache]`) build the cache key from the receiver and the arguments.  They are EVALUATED for has_self x 0..4 arguments; in the
+# resulting block `format!("{:?}", x)` / `(x).to_cache_key()` is the RENDERING of x, which the translation takes as given
+# (parameter `x : Keys.Text`; the rendering itself is C02's subject) — what is translated is how the parts are assembled.
+
+class KeyProfile(PureProfile):
+    def __init__(self):
+        super().__init__({"__key_parts": "deque"}, {})
+
+    def call(self, segs, generics, args, em, env):
+        if segs in (["Vec", "new"], ["String", "new"]) and not args:
+            return "([] : List _)" if segs[0] == "Vec" else "([] : Keys.Text)"
+        return None
+
+    def mut_method(self, name, recv=None):
+        if name == "push":
+            return ("RustLite.pushBack", False)
+        return None
+
+    def method(self, recv, name, generics, args, em, env):
+        if name == "to_cache_key" and not args:
+            return em.expr(recv, env)
+        if name == "join" and len(args) == 1 and args[0][0] == "str":
+            sep = args[0][1].replace("\\", "\\\\").replace('"', '\\"')
+            return f'(Keys.joinWith ("{sep}".toList) {em.expr(recv, env)})'
+        return None
+
+
+def key_expr_tokens(fns, rel, gen, has_self, n):
+    gi = GenInterp(fns, rel)
+    pats = ("patlist", [[("id", f"a{i}", 0)] for i in range(n)])
+    toks = gi.call(gen, [has_self, pats])
+    if not isinstance(toks, list):
+        raise Untranslatable(f"{rel}: `{gen}` does not produce a token stream")
+    toks = [("id", "self_", t[2]) if (t[0] == "id" and t[1] == "self") else t for t in toks]
+    out = []
+    i = 0
+    while i < len(toks):
+        t = toks[i]
+        # `use path;` inside the block
+        if t[0] == "id" and t[1] == "use":
+            while toks[i][1] != ";":
+                i += 1
+            i += 1
+            continue
+        # format!("{:?}", X)  ->  (X)
+        if t[0] == "id" and t[1] == "format" and i + 2 < len(toks) and toks[i + 1][1] == "!" and toks[i + 2][1] == "(":
+            if not (toks[i + 3][0] == "str" and toks[i + 3][1] == "{:?}" and toks[i + 4][1] == ","):
+                raise Untranslatable(f"{rel}: `{gen}`: a key part is not rendered with `format!(\"{{:?}}\", …)`")
+            depth, j = 0, i + 2
+            while True:
+                if toks[j][1] == "(":
+                    depth += 1
+                if toks[j][1] == ")":
+                    depth -= 1
+                    if depth == 0:
+                        break
+                j += 1
+            out += [("p", "(", 0)] + toks[i + 5:j] + [("p", ")", 0)]
+            i = j + 1
+            continue
+        if t[0] == "id" and t[1] == "self":
+            out.append(("id", "self_", t[2])); i += 1; continue
+        out.append(t)
+        i += 1
+    # the template is `{{ … }}`: a block whose value is a block
+    return out + [("eof", "", 0)]
+
+
+def translate_key_exprs():
+    """Generated/PureKeys.lean"""
+    rel = "cachelito-macro-utils/src/lib.rs"
+    fns = {f["name"]: f for (_, f) in parse_source(os.path.join(REPO, rel))}
+    out = []
+    info = {"defs": []}
+    for (gen, tag) in (("generate_key_expr_with_cacheable_key", "Sync"), ("generate_key_expr", "Async")):
+        for has_self in (False, True):
+            for n in range(5):
+                toks = key_expr_tokens(fns, rel, gen, has_self, n)
+                where = f"{rel} ({gen}, has_self={has_self}, {n} arguments)"
+                block = Parser(toks, where).parse_block()
+                while block[0] == "block" and not block[1] and block[2] is not None and block[2][0] == "block":
+                    block = block[2]
+                prof = KeyProfile()
+                em = Emitter(prof, where)
+                env = ["self_"] + [f"a{i}" for i in range(n)]
+                K = Cont(normal=lambda env2: em.fail("key expression without a value"),
+                         ret=lambda v, env2: em.expr(v, env2),
+                         value=lambda ast, env2: em.expr(ast, env2))
+                text = seq(em, list(block[1]), env, K, "\n  ", tail=block[2])
+                name = f"key{tag}_{1 if has_self else 0}_{n}"
+                params = " ".join(["(self_ : Keys.Text)"] + [f"(a{i} : Keys.Text)" for i in range(n)])
+                out.append(f"/-- `{rel}` `{gen}`: {'method' if has_self else 'free function'} with {n} argument(s) -/\n"
+                           f"def {name} {params} : Keys.Text :=\n  {text}\n")
+                info["defs"].append(name)
     return "\n".join(out), info
 
 
